@@ -10,6 +10,7 @@ import (
 	"strings"
 	"testing"
 	"time"
+	"unicode"
 
 	"github.com/flowmatters/openwater-core/data"
 	owjs "github.com/flowmatters/openwater-core/io/json"
@@ -221,7 +222,60 @@ func genReqFor(t *rapid.T, name string, full bool) Req {
 		}
 		q.Inputs = append(q.Inputs, NS{in, pbt.Fs(cc.Inputs[i])})
 	}
-	// superset: names the model does not have
+	// superset: names that differ from a declared one only in the case of a letter (a parameter set shared between
+	// models: DynamicSednetGully declares Area, DepthToRate declares area) are other names
+	caseVariant := func(n string) string {
+		r := []rune(n)
+		k := rapid.IntRange(0, len(r)-1).Draw(t, "casePos")
+		for i := 0; i < len(r); i++ {
+			j := (k + i) % len(r)
+			if up := unicode.ToUpper(r[j]); up != r[j] {
+				r[j] = up
+				return string(r)
+			}
+			if lo := unicode.ToLower(r[j]); lo != r[j] {
+				r[j] = lo
+				return string(r)
+			}
+		}
+		return n + "_"
+	}
+	declared := map[string]bool{}
+	for _, p := range desc.Parameters {
+		declared[p.Name] = true
+	}
+	for _, in := range desc.Inputs {
+		declared[in] = true
+	}
+	if len(desc.Parameters) > 0 && rapid.IntRange(0, 3).Draw(t, "caseP") == 0 {
+		p := desc.Parameters[rapid.IntRange(0, len(desc.Parameters)-1).Draw(t, "casePWhich")]
+		if v := caseVariant(p.Name); !declared[v] {
+			nv := NV{v, pbt.F(cc.Cell[0][0]*0.5 + 7)}
+			at := rapid.IntRange(0, len(q.Params)).Draw(t, "casePAt")
+			q.Params = append(q.Params[:at], append([]NV{nv}, q.Params[at:]...)...)
+			if !full && rapid.Bool().Draw(t, "casePOnly") {
+				// only the variant is sent: the declared parameter is missing
+				var keep []NV
+				for _, g := range q.Params {
+					if g.Name != p.Name {
+						keep = append(keep, g)
+					}
+				}
+				q.Params = keep
+			}
+		}
+	}
+	if rapid.IntRange(0, 5).Draw(t, "caseI") == 0 && len(q.Inputs) > 0 {
+		g := q.Inputs[rapid.IntRange(0, len(q.Inputs)-1).Draw(t, "caseIWhich")]
+		if v := caseVariant(g.Name); !declared[v] && declared[g.Name] {
+			other := make([]pbt.F, len(g.Values))
+			for i := range other {
+				other[i] = g.Values[i]*0.5 + 3
+			}
+			at := rapid.IntRange(0, len(q.Inputs)).Draw(t, "caseIAt")
+			q.Inputs = append(q.Inputs[:at], append([]NS{{v, other}}, q.Inputs[at:]...)...)
+		}
+	}
 	if rapid.IntRange(0, 3).Draw(t, "extraP") == 0 {
 		q.Params = append(q.Params, NV{"notAParameter", 42})
 	}
